@@ -18,7 +18,7 @@ ID = "C06"
 RULE = (
     "enumerated tier: every directed graph (self-loops included) on 1..3 nodes x per-node origin in {none, own "
     "non-ramp, own ramp, one ramp object shared by all such nodes} (palette A: ideal/metered; palette B: "
-    "mainstream/simplified; both palettes mixed for <=2 nodes) x per-node destination in {none, own, one shared "
+    "mainstream/simplified, where all distinct elements share the name X; both palettes for <=2 nodes) x per-node destination in {none, own, one shared "
     "object} x {all links distinct, first two edges share one link object}; built through add_nodes/add_link/"
     "add_origin/add_destination; is_valid compared with the predicate after the links and at the end, and with "
     "raises=True. quick = all <=2-node cases + 20000 seeded-random 3-node cases; thorough = all of them. "
@@ -30,7 +30,7 @@ RULE = (
 )
 BUDGET = {
     "quick": {"examples": 400, "shards": 4, "enum_shards": 4},
-    "thorough": {"examples": 6000, "shards": 16, "enum_shards": 16},
+    "thorough": {"fuzz_runs": 3000, "examples": 6000, "shards": 16, "enum_shards": 16},
 }
 EXHAUSTIVE = {
     "quick": "all graphs on <=2 nodes (every origin kind, shared objects); 3-node graphs sampled",
@@ -45,6 +45,7 @@ PALETTES = {"A": ("ideal", "ramp"), "B": ("main", "simp")}
 def enum_case(n, edge_list, ocodes, dcodes, share, palette):
     """ocodes per node: 0 none, 1 own non-ramp, 2 own ramp, 3 shared ramp, (4 own non-ramp', 5 own ramp' for mixed)."""
     nonramp, ramp = PALETTES[palette]
+    clash = palette == "B"  # distinct elements sharing one name: still not duplicates
     other = PALETTES["B" if palette == "A" else "A"]
     uni = {"nodes": [f"N{i}" for i in range(n)], "links": [], "origins": [], "dests": []}
     ops = [["add_nodes", [f"n{i}" for i in range(n)]]]
@@ -53,7 +54,7 @@ def enum_case(n, edge_list, ocodes, dcodes, share, palette):
             tok = "l0"
         else:
             tok = f"l{len(uni['links'])}"
-            uni["links"].append(f"L{len(uni['links'])}")
+            uni["links"].append("X" if clash else f"L{len(uni['links'])}")
         ops.append(["add_link", f"n{u}", tok, f"n{v}"])
     mid = len(ops)
     shared_o = None
@@ -68,7 +69,7 @@ def enum_case(n, edge_list, ocodes, dcodes, share, palette):
         else:
             kind = {1: nonramp, 2: ramp, 4: other[0], 5: other[1]}[c]
             tok = f"o{len(uni['origins'])}"
-            uni["origins"].append([kind, f"O{i}"])
+            uni["origins"].append([kind, "X" if clash else f"O{i}"])
         ops.append(["add_origin", tok, f"n{i}"])
     shared_d = None
     for i, c in enumerate(dcodes):
@@ -81,7 +82,7 @@ def enum_case(n, edge_list, ocodes, dcodes, share, palette):
             tok = shared_d
         else:
             tok = f"d{len(uni['dests'])}"
-            uni["dests"].append(["cong" if i % 2 else "free", f"D{i}"])
+            uni["dests"].append(["cong" if i % 2 else "free", "X" if clash else f"D{i}"])
         ops.append(["add_destination", tok, f"n{i}"])
     return {"universe": uni, "ops": ops, "checks": sorted({mid - 1, len(ops) - 1})}
 
@@ -101,7 +102,7 @@ def enumerate_cases(tier, seed, shard, nshards):
     for n in (1, 2):
         for edges, oc, dc, share in _space(n, (0, 1, 2, 3, 4, 5)):
             if idx % nshards == shard:
-                yield enum_case(n, edges, oc, dc, share, "A")
+                yield enum_case(n, edges, oc, dc, share, "AB"[idx // nshards % 2])
             idx += 1
     if tier == "thorough":
         for pal in ("A", "B"):
@@ -167,8 +168,12 @@ def cases(draw):
             O.pop(draw(st.integers(0, len(O) - 1)))
         elif e == "drop_dest" and D:
             D.pop(draw(st.integers(0, len(D) - 1)))
-    uni = {"nodes": [f"N{i}" for i in range(nn)], "links": [f"L{i}" for i in range(nl)],
-           "origins": [[k, f"O{i}"] for i, k in enumerate(okinds)], "dests": [["cong" if i % 2 else "free", f"D{i}"] for i in range(nd)]}
+    if draw(st.booleans()):
+        nm = lambda pre, i: draw(st.sampled_from(["a", "b"]))  # noqa: E731  clashing names
+    else:
+        nm = lambda pre, i: f"{pre}{i}"  # noqa: E731
+    uni = {"nodes": [nm("N", i) for i in range(nn)], "links": [nm("L", i) for i in range(nl)],
+           "origins": [[k, nm("O", i)] for i, k in enumerate(okinds)], "dests": [["cong" if i % 2 else "free", nm("D", i)] for i in range(nd)]}
     ops = [["add_link", f"n{u}", f"l{l}", f"n{v}"] for u, v, l in E]
     ops += [["add_origin", f"o{o}", f"n{n}"] for o, n in O] + [["add_destination", f"d{d}", f"n{n}"] for d, n in D]
     ops = list(draw(st.permutations(ops)))
